@@ -1880,19 +1880,27 @@ theorem litOnly_filterMapM {α β} (f : α → Outcome (Option β)) (hf : ∀ x,
     | none => exact litOnly_filterMapM f hf l
     | some b => exact LitOnly.bind (litOnly_filterMapM f hf l) (fun _ _ => (Clean.pure _).litOnly)
 
-theorem literalOk_litOnly (s : Schema) : ∀ (fuel : Nat) (v : Value) (ty : TypeId), LitOnly (literalOk s fuel v ty) := by
+theorem literalOk_litOnly (s : Schema) : ∀ (fuel : Nat) (v : Value) (ty : TypeId) (quals : List Qual),
+    LitOnly (literalOk s fuel v ty quals) := by
   intro fuel
   induction fuel with
   | zero =>
-    intro v ty w h
-    simp only [literalOk, Except.error.injEq, Err.unmodelled.injEq] at h
-    exact h.symm
+    intro v ty quals w h
+    simp only [literalOk] at h
+    split at h
+    · cases h
+    · simp only [Except.error.injEq, Err.unmodelled.injEq] at h
+      exact h.symm
   | succ n ih =>
-    intro v ty
+    intro v ty quals
     cases v with
     | var x => simp only [literalOk]; exact (Clean.panic _).litOnly
-    | null => simp only [literalOk]; exact (Clean.panic _).litOnly
-    | list xs => simp only [literalOk]; exact litOnly_forM _ (fun x => ih x ty) xs
+    | null =>
+      simp only [literalOk]
+      split
+      · exact (Clean.pure _).litOnly
+      · exact (Clean.panic _).litOnly
+    | list xs => simp only [literalOk]; exact litOnly_forM _ (fun x => ih x ty _) xs
     | obj kvs =>
       simp only [literalOk]
       split
@@ -1902,7 +1910,7 @@ theorem literalOk_litOnly (s : Schema) : ∀ (fuel : Nat) (v : Value) (ty : Type
         rintro ⟨fname, fty⟩
         simp only []
         split
-        · exact ih _ _
+        · exact ih _ _ _
         · exact (Clean.pure _).litOnly
     | int x => simp only [literalOk]; exact (Clean.pure _).litOnly
     | float x => simp only [literalOk]; exact (Clean.pure _).litOnly
@@ -1987,7 +1995,7 @@ theorem litOnly_variablesItems (c : Ctx) (op : Nat) : LitOnly (variablesItems c 
     · intro v
       split
       · exact (Clean.pure _).litOnly
-      · exact LitOnly.bind (hvt v).litOnly (fun _ _ => LitOnly.bind (literalOk_litOnly _ _ _ _)
+      · exact LitOnly.bind (hvt v).litOnly (fun _ _ => LitOnly.bind (literalOk_litOnly _ _ _ _ _)
           (fun _ _ => (Clean.pure _).litOnly))
 
 /-- **C17, module level**: whatever the schema, query, operation and options, the only fuel that
